@@ -140,7 +140,16 @@ class Stack:
             import ipaddress
             opt = H.IPv4EndpointOption(address=ipaddress.IPv4Address(self.addr[0]), l4proto=H.L4Protocols.UDP, port=3000)
             svc = C.Service(SVC[0], SVC[1], SVC[2], SVC[3], options_1=(opt,), eventgroups=frozenset({EG}))
-            self.prot.announcer.announce_service(S.ServiceInstance(svc, L(), self.prot.announcer, tm))
+            # the instance carries its own Timings object (a separate public constructor argument); in every other incarnation the
+            # stack-wide one then says something else about offers - only the instance's own counts for its offers
+            inst_tm = tm
+            if self.incarnation % 2 == 0:
+                import dataclasses
+                inst_tm = dataclasses.replace(tm)
+                self.prot.timings.ANNOUNCE_TTL = 1 if cfg["a_ttl"] != 1 else 2
+                self.prot.timings.CYCLIC_OFFER_DELAY = 7.0
+                self.prot.timings.REPETITIONS_MAX = 0
+            self.prot.announcer.announce_service(S.ServiceInstance(svc, L(), self.prot.announcer, inst_tm))
         else:
             class L(S.ClientServiceListener):
                 def service_offered(self, service, source):
